@@ -12,9 +12,39 @@ def showLoader : Loader → String
   | .sshPublic => "sshPublic" | .sshPrivate => "sshPrivate" | .pemPublic => "pemPublic"
   | .pemPrivate => "pemPrivate" | .certificate => "certificate" | .der => "der"
 
+def showGenCall : GenCall × Bool → String
+  | (.tokenBytes n, v) => s!"token_bytes:{n}:{if v then 1 else 0}"
+  | (.rsa e b, v) => s!"rsa:{e}:{b}:{if v then 1 else 0}"
+  | (.ec c, v) => s!"ec:{strToHex c}:{if v then 1 else 0}"
+  | (.okp c, v) => s!"okp:{strToHex c}:{if v then 1 else 0}"
+
+/-- `I<int>` or `C<hex>` -/
+def readGenArg (s : String) : Option GenArg :=
+  match s.toList with
+  | 'I' :: rest => (String.ofList rest).toInt?.map GenArg.size
+  | 'C' :: rest => (hexToStr (String.ofList rest)).map GenArg.crv
+  | _ => none
+
+def genTables : GenTables := { keyTypes := keyTypes, ecCurves := ecCurves.map (·.1), okpCurves := okpCurves }
+
 def handleKeys (toks : List String) (tbl : Table) : Option String :=
   let P := oraclePrims tbl
   match toks with
+  | ["key.gen", kty, arg, priv] => do
+    let k ← hexToStr kty
+    let a ← readGenArg arg
+    let p ← match priv with | "1" => some true | "0" => some false | _ => none
+    match generateKey genTables k a p with
+    | none => some "ok unmodelled"
+    | some r => some (showRes (r.map showGenCall))
+  | ["key.genset", kty, arg, priv, count] => do
+    let k ← hexToStr kty
+    let a ← readGenArg arg
+    let p ← match priv with | "1" => some true | "0" => some false | _ => none
+    let c ← count.toInt?
+    match generateKeySet genTables k a p c with
+    | none => some "ok unmodelled"
+    | some r => some (showRes (r.map fun l => if l.isEmpty then "-" else String.intercalate "," (l.map showGenCall)))
   | ["key.asdict", key, priv, params] => do
     let k ← readKey key
     let p ← readPriv priv
